@@ -628,7 +628,23 @@ impl Check for C14 {
             out.violations.push(viol("harness-error", "c14-base", format!("undisturbed run violates C13: {}", bv[0].detail), &serde_json::to_value(&base).unwrap()));
             return out;
         }
-        for (i, c) in c14_cases(&base, &base_run, &mut rng).into_iter().enumerate() {
+        // retried RPCs: every validate / run / consts call of the base run delivered twice (the caller
+        // sees the first answer); the second copy is invalid for the state then reached
+        let mut all_cases = c14_cases(&base, &base_run, &mut rng);
+        {
+            let mut seen = std::collections::BTreeSet::new();
+            for d in &base_run.decisions {
+                let parts: Vec<&str> = d.split(' ').collect();
+                if parts.len() >= 4 && ["validate", "run", "consts"].contains(&parts[0]) && seen.insert(d.clone()) {
+                    let (from, to) = parts[1].split_once('>').map(|(a, b)| (a.parse::<usize>().unwrap_or(0), b.parse::<usize>().unwrap_or(0))).unwrap_or((0, 0));
+                    let mut sp = base.clone();
+                    sp.explicit = base_run.decisions.clone();
+                    sp.faults.push(RpcFault { kind: parts[0].to_string(), from, to, comp: 1, nth: 0, verdict: Verdict::Duplicate });
+                    all_cases.push(C14Case { spec: sp, what: format!("duplicated-rpc: {} {}>{} delivered twice", parts[0], from, to), must_err: false });
+                }
+            }
+        }
+        for (i, c) in all_cases.into_iter().enumerate() {
             if i as u64 % 8 != shard {
                 continue;
             }
